@@ -56,7 +56,7 @@ NodeInit(e) ==
      lk |-> <<>>, pendSearch |-> <<>>, sidAid |-> <<>>, closed |-> <<>>, yields |-> <<>>, started |-> <<>>,
      rounds |-> <<>>, succ |-> <<>>,
      answered |-> FALSE, waits |-> <<>>, qsent |-> 0, started_at |-> now, bootstate |-> "AwaitStart",
-     annClosed |-> <<>>, lastSentTo |-> <<>>, samples |-> <<>>, lastAns |-> <<>>, lastNamed |-> <<>>, qsince |-> <<>>, admitted |-> {}, mechn |-> 0, raid |-> "", cursor |-> -1, bphase |-> [b |-> -1, list |-> <<>>, i |-> 0], bootn |-> 0, battempt |-> 0, bsince |-> 0]
+     annClosed |-> <<>>, lastSentTo |-> <<>>, samples |-> <<>>, lastAns |-> <<>>, lastNamed |-> <<>>, qsince |-> <<>>, admitted |-> {}, mechn |-> 0, raid |-> "", cursor |-> -1, bphase |-> [b |-> -1, list |-> <<>>, i |-> 0], bootn |-> 0, battempt |-> 0, bsince |-> 0, binit |-> <<>>, bacc |-> 0]
 
 Init == l = 1 /\ S = <<>> /\ G = [universe |-> <<>>, plan |-> <<>>, coop |-> FALSE, proj |-> FALSE, twins |-> <<>>, responsive |-> <<>>, searching |-> <<>>]
 
@@ -394,6 +394,10 @@ BootBucketPred(nd, b) ==
 IsBootBucketQuery(nd, m) ==
     /\ m.y = "q" /\ m.q = "find_node" /\ m.pfx # nd.raid /\ m.pfx \notin DOMAIN nd.lk
     /\ m.a.idl = 20 /\ m.a.targetl = 20 /\ m.a.target # nd.id
+\* the first round of a bootstrap attempt: one find_node for the own id, under one transaction id, to every configured contact
+IsBootInitialQuery(nd, m) ==
+    /\ m.y = "q" /\ m.q = "find_node" /\ m.pfx # nd.raid /\ m.pfx \notin DOMAIN nd.lk
+    /\ m.a.idl = 20 /\ m.a.targetl = 20 /\ m.a.target = nd.id /\ nd.bootstate = "InitialContact"
 BootPhaseNext(nd, e) ==
     LET b == LCP160(nd.id, e.m.a.target)
         cont == nd.bphase.b = b /\ nd.bphase.i < Len(nd.bphase.list)
@@ -442,7 +446,8 @@ SendStep(e) ==
                              !.sentpairs = IF isq THEN @ \cup {<<e.dst, m.t>>} ELSE @,
                              !.lastSentTo = IF isq THEN FSet(@, e.dst, now) ELSE @,
                              !.bphase = IF IsBootBucketQuery(nd, m) THEN LET n == BootPhaseNext(nd, e) IN [b |-> n.b, list |-> n.list, i |-> n.i] ELSE @,
-                             !.bootn = @ + (IF IsBootBucketQuery(nd, m) THEN 1 ELSE 0)])
+                             !.bootn = @ + (IF IsBootBucketQuery(nd, m) THEN 1 ELSE 0),
+                             !.binit = IF IsBootInitialQuery(nd, m) THEN Append(@, [dst |-> e.dst, t |-> m.t]) ELSE @])
     /\ UNCHANGED G
 
 RecvStep(e) ==
@@ -625,11 +630,19 @@ WorkerTable(e) ==
                                                <<"InitialContact", "IdleBeforeRebootstrap">>, <<"InitialContact", "Bootstrapping">>,
                                                <<"Bootstrapping", "Bootstrapped">>, <<"Bootstrapping", "IdleBeforeRebootstrap">>,
                                                <<"Bootstrapped", "InitialContact">>, <<"IdleBeforeRebootstrap", "InitialContact">>})
+            /\ (e.from = "InitialContact" =>
+                    \* ... unless min(8, number of contacts) of them have answered before all were asked (beyond nine the sends are throttled)
+                    MDrift("bootstrap-first-round-asks-every-contact-once-under-one-transaction-id", l,
+                           /\ {nd.binit[i].dst : i \in 1..Len(nd.binit)} \subseteq nd.contacts
+                           /\ \A i, j \in 1..Len(nd.binit) : (nd.binit[i].t = nd.binit[j].t) /\ (i # j => nd.binit[i].dst # nd.binit[j].dst)
+                           /\ (Len(nd.binit) = Cardinality(nd.contacts) \/ nd.bacc >= Min2(8, Cardinality(nd.contacts)))))
             /\ (e.from = "IdleBeforeRebootstrap" => MDrift("bootstrap-back-off", l, now - nd.bsince = BS!Backoff(nd.battempt)))
             /\ (e.from = "Bootstrapped" => MDrift("rebootstrap-decided-at-a-5s-table-check", l, now > nd.bsince /\ (now - nd.bsince) % 5000 = 0)))
     /\ Upd(e, [nd EXCEPT !.t = post, !.bootstate = IF e.ev = "BootState" THEN e.to ELSE @,
                          !.bphase = IF e.ev = "BootState" THEN [b |-> -1, list |-> <<>>, i |-> 0] ELSE @,
                          !.bsince = IF e.ev = "BootState" THEN now ELSE @,
+                         !.binit = IF e.ev = "BootState" THEN <<>> ELSE @,
+                         !.bacc = IF e.ev = "BootState" THEN 0 ELSE IF e.ev = "BootMsg" /\ e.accepted THEN @ + 1 ELSE @,
                          !.battempt = IF e.ev # "BootState" THEN @ ELSE IF e.to = "Bootstrapped" THEN 0
                                       ELSE IF e.from = "IdleBeforeRebootstrap" THEN @ + 1 ELSE @])
     /\ UNCHANGED G
